@@ -7,6 +7,7 @@ CONSTANTS
  MaxCommits = 4
  MaxSteps = 7
  Emit = FALSE
+ Skew = FALSE
  FsckFlags = {"none","objects","pointers","dry-run"}
  Damages = {"absent","corrupt","truncated","extended","replaced"}
 SPECIFICATION FSpec
